@@ -827,3 +827,51 @@ def union_gadget_type(facts):
                     out.append(ob("hll.gadget-type", key, n["loc"], "violated", "the new gadget is produced by `%s`, which keeps the source's target type; %d places in union_impl downcast the gadget to Hll8Array (mergeHll/mergeList/putHipAccum): an HLL_4/HLL_6 gadget is then treated as HLL_8 (register corruption, heap overflow)" % (r[:80], casts[0]), fn["qname"]))
         walk(fn["body"], v)
     return out
+
+
+def coupon_identity(facts):
+    """LIST and SET are two containers for one set of coupons; 'already present' must mean the same in both: the element loaded from
+    the array equals the WHOLE new coupon (address and value).  A test on a part of the coupon (its 26-bit address) drops a coupon
+    whose slot is already present with a smaller value, so the retained content depends on arrival order and on the container."""
+    fs = hll_fns(facts)
+    out = []
+    for pat, fn in sorted(fs.items()):
+        is_list = fn.get("rect") == "datasketches::CouponList" and fn["name"] == "couponUpdate"
+        is_set = fn["name"] == "find" and "CouponHashSet" in fn["pat"] and len(fn["params"]) == 3
+        if not (is_list or is_set):
+            continue
+        cp = [p for p in fn["params"] if p["n"] == "coupon"]
+        key = "%s:duplicate-test" % ("CouponList::couponUpdate" if is_list else "CouponHashSet::find")
+        if not cp:
+            out.append(ob("hll.coupon-identity", key, fn["pat"], "unrecognised", "no `coupon` parameter", fn["qname"]))
+            continue
+        decls = local_decls(fn)
+        eqs = []
+
+        def v(n):
+            if n.get("k") == "Bin" and n.get("op") == "==":
+                refs = []
+                walk(n, lambda x: refs.append(x) if x.get("k") == "Ref" and x.get("d") == cp[0]["d"] else None)
+                if refs:
+                    eqs.append(n)
+        walk(fn["body"], v)
+        if len(eqs) != 1:
+            out.append(ob("hll.coupon-identity", key, fn["pat"], "unrecognised", "%d equality tests involving `coupon`" % len(eqs), fn["qname"]))
+            continue
+        l, r = strip_all(eqs[0]["l"]), strip_all(eqs[0]["r"])
+        sides = [x for x in (l, r)]
+        plain_coupon = any(x.get("k") == "Ref" and x.get("d") == cp[0]["d"] for x in sides)
+        other = [x for x in sides if not (x.get("k") == "Ref" and x.get("d") == cp[0]["d"])]
+        loaded = False
+        if other and other[0].get("k") == "Ref" and other[0].get("d") in decls:
+            ini = strip_all(decls[other[0]["d"]].get("init") or {})
+            loaded = ini.get("k") in ("Index", "OpCall")
+        elif other and other[0].get("k") in ("Index", "OpCall"):
+            loaded = True
+        if plain_coupon and loaded:
+            out.append(ob("hll.coupon-identity", key, eqs[0]["loc"], "discharged", "duplicate iff stored element == coupon (whole value)", fn["qname"]))
+        else:
+            out.append(ob("hll.coupon-identity", key, eqs[0]["loc"], "violated", "the duplicate test is `%s`: it compares a part / a function of the coupon instead of the whole stored element with the whole new coupon (LIST and SET must agree: same address with a different value is a different coupon)" % txt(eqs[0]), fn["qname"]))
+    if len(out) < 2:
+        out.append(ob("hll.coupon-identity", "anchor", "", "unrecognised", "CouponList::couponUpdate / CouponHashSet find not both found", ""))
+    return out
